@@ -650,6 +650,16 @@ package router
 //@ # interpreted (assumed frames, callmod); what is decided is what prepareSCMP hands to them:
 //@ iface gopacket.SerializableLayer.SerializeTo
 //@   modifies nothing
+//@ # the offending packet's path as the decoder left it (C19: Base.DecodeFromBytes): a standard SCION path, directly
+//@ # or inside an EPIC path
+//@ macro origPath(p) = ite(typeis(p.scionLayer.Path, *scion.Raw), asptr(p.scionLayer.Path, *scion.Raw), asptr(p.scionLayer.Path, *epic.Path).ScionPath)
+//@ macro scmpPathOK(p) = ((typeis(p.scionLayer.Path, *scion.Raw) || (typeis(p.scionLayer.Path, *epic.Path) && asptr(p.scionLayer.Path, *epic.Path) != nil)) && origPath(p) != nil && scion.baseOK(origPath(p).PathMeta.SegLen[0], origPath(p).PathMeta.SegLen[1], origPath(p).PathMeta.SegLen[2], origPath(p).NumINF, origPath(p).NumHops))
+//@ # a peering hop: the info field says peering and the current hop is the last of the first or the first of the second segment
+//@ func determinePeer
+//@   props C10 C22
+//@   modifies nothing
+//@   ensures result1 == nil ==> result0 == (inf.Peer && (pathMeta.CurrHF == pathMeta.SegLen[0]-1 || pathMeta.CurrHF == pathMeta.SegLen[0]))
+//@   ensures (result1 == nil) == (!inf.Peer || (pathMeta.SegLen[0] != 0 && pathMeta.SegLen[1] != 0 && pathMeta.SegLen[2] == 0))
 //@ iface path.Path.Type
 //@   modifies nothing
 //@ iface drkeyProvider.GetASHostKey
@@ -669,23 +679,23 @@ package router
 //@   callmod github.com/scionproto/scion/pkg/spao.ComputeAuthCMAC: arr(p.macInputBuffer)
 //@   requires p != nil && p.pkt != nil && p.pkt.Link != nil && p.d != nil && p.scionLayer.Path != nil
 //@   # the offending packet's path as decoded (C19: Base.DecodeFromBytes): a standard SCION path
-//@   requires typeis(p.scionLayer.Path, *scion.Raw) && asptr(p.scionLayer.Path, *scion.Raw) != nil
-//@   let op = asptr(p.scionLayer.Path, *scion.Raw)
+//@   requires scmpPathOK(p)
+//@   let op = origPath(p)
 //@   let h0 = op.NumHops
 //@   let c0 = int(op.PathMeta.CurrHF)
-//@   requires scion.baseOK(op.PathMeta.SegLen[0], op.PathMeta.SegLen[1], op.PathMeta.SegLen[2], op.NumINF, op.NumHops)
+//@   # (asserted where the new header has just been filled in, before the serialization branches)
 //@   # C10: the reply travels the reversed path: same hops, segments in reverse order, and the current hop is the mirror
 //@   # image of the offending packet's current hop - advanced by one where the packet had already been switched to the
 //@   # next segment, and by one more when the reply leaves over an external link
-//@   callpre (*github.com/scionproto/scion/pkg/slayers.SCION).SerializeTo: typeis(a0.Path, *scion.Decoded) && asptr(a0.Path, *scion.Decoded).NumHops == h0 && asptr(a0.Path, *scion.Decoded).NumINF == op.NumINF
-//@   callpre (*github.com/scionproto/scion/pkg/slayers.SCION).SerializeTo: asptr(a0.Path, *scion.Decoded).PathMeta.SegLen[0] == old(op.PathMeta.SegLen[op.NumINF-1]) && asptr(a0.Path, *scion.Decoded).PathMeta.SegLen[op.NumINF-1] == old(op.PathMeta.SegLen[0])
-//@   callpre (*github.com/scionproto/scion/pkg/slayers.SCION).SerializeTo: int(asptr(a0.Path, *scion.Decoded).PathMeta.CurrHF) >= h0-1-c0 + ite(linkScope(p.pkt.Link) == External, 1, 0) && int(asptr(a0.Path, *scion.Decoded).PathMeta.CurrHF) <= h0-1-c0 + 1 + ite(linkScope(p.pkt.Link) == External, 1, 0)
+//@   callpre (*github.com/scionproto/scion/pkg/slayers.SCION).SetSrcAddr: typeis(a0.Path, *scion.Decoded) && asptr(a0.Path, *scion.Decoded).NumHops == h0 && asptr(a0.Path, *scion.Decoded).NumINF == op.NumINF
+//@   callpre (*github.com/scionproto/scion/pkg/slayers.SCION).SetSrcAddr: asptr(a0.Path, *scion.Decoded).PathMeta.SegLen[0] == old(op.PathMeta.SegLen[op.NumINF-1]) && asptr(a0.Path, *scion.Decoded).PathMeta.SegLen[op.NumINF-1] == old(op.PathMeta.SegLen[0])
+//@   callpre (*github.com/scionproto/scion/pkg/slayers.SCION).SetSrcAddr: int(asptr(a0.Path, *scion.Decoded).PathMeta.CurrHF) >= h0-1-c0 + ite(linkScope(p.pkt.Link) == External, 1, 0) && int(asptr(a0.Path, *scion.Decoded).PathMeta.CurrHF) <= h0-1-c0 + 1 + ite(linkScope(p.pkt.Link) == External, 1, 0)
 //@   # C09: the SCION header handed to serialization is addressed to the offending packet's source ISD-AS and host,
 //@   # comes from the local ISD-AS and the router's own host address, keeps flow id and traffic class, carries a
 //@   # standard SCION path, and announces SCMP (behind the authenticator extension when authenticated)
 //@   callpre (*github.com/scionproto/scion/pkg/slayers.SCION).SerializeTo: a0.DstIA == p.scionLayer.SrcIA && a0.SrcIA == p.d.localIA
 //@   callpre (*github.com/scionproto/scion/pkg/slayers.SCION).SerializeTo: a0.DstAddrType == p.scionLayer.SrcAddrType && a0.RawDstAddr == p.scionLayer.RawSrcAddr
-//@   callpre (*github.com/scionproto/scion/pkg/slayers.SCION).SerializeTo: a0.SrcAddrType == slayers.packedType(p.d.localHost) && len(a0.RawSrcAddr) == slayers.packedLen(p.d.localHost) && (forall j int :: 0 <= j && j < len(a0.RawSrcAddr) ==> a0.RawSrcAddr[j] == slayers.packedByte(p.d.localHost, j))
+//@   callpre (*github.com/scionproto/scion/pkg/slayers.SCMP).SetNetworkLayerForChecksum: a1.SrcAddrType == slayers.packedType(p.d.localHost) && len(a1.RawSrcAddr) == slayers.packedLen(p.d.localHost) && (forall j int :: 0 <= j && j < len(a1.RawSrcAddr) ==> a1.RawSrcAddr[j] == slayers.packedByte(p.d.localHost, j))
 //@   callpre (*github.com/scionproto/scion/pkg/slayers.SCION).SerializeTo: a0.FlowID == p.scionLayer.FlowID && a0.TrafficClass == p.scionLayer.TrafficClass && a0.PathType == 1
 //@   callpre (*github.com/scionproto/scion/pkg/slayers.SCION).SerializeTo: a0.NextHdr == slayers.L4SCMP || a0.NextHdr == slayers.End2EndClass
 //@   # the quoted prefix of the offending packet is cut so that computed header length + quote stays within 1232 bytes
@@ -699,7 +709,8 @@ package router
 //@ ghost var scmpPrepared int
 //@ func (*slowPathPacketProcessor).packSCMP
 //@   props C09
-//@   requires p != nil && p.lastLayer != nil && p.pkt != nil
+//@   requires p != nil && p.lastLayer != nil && p.pkt != nil && p.pkt.Link != nil && p.d != nil && p.scionLayer.Path != nil && scmpPathOK(p)
+//@   callmod (*slowPathPacketProcessor).prepareSCMP: *p.pkt, *p.pkt.buffer, arr(p.pkt.RawPacket), arr(p.macInputBuffer), p.optAuth, scmpPrepared
 //@   # what the slow path asks for is what the fast path detected: type and code of an error are those of the slow-path
 //@   # request, and the message body carries the request's pointer resp. this router's ISD-AS and the interfaces concerned
 //@   requires isError ==> slowPathType(typ) == p.pkt.slowPathRequest.spType && code == p.pkt.slowPathRequest.code
@@ -718,9 +729,13 @@ package router
 //@   ensures result1 == nil ==> result0 != nil
 //@   # a decoded SCION layer holds a path object, never a typed nil pointer (path pool / path.NewPath)
 //@   ensures result1 == nil && typeis(curSlow.scionLayer.Path, *epic.Path) ==> asptr(curSlow.scionLayer.Path, *epic.Path) != nil
+//@   ensures result1 == nil && curSlow.scionLayer.Path != nil && typeis(curSlow.scionLayer.Path, *scion.Raw) ==> asptr(curSlow.scionLayer.Path, *scion.Raw) != nil
+//@   # ... and standard SCION paths come out of Base.DecodeFromBytes (C19) with consistent dimensions
+//@   ensures result1 == nil && curSlow.scionLayer.Path != nil && typeis(curSlow.scionLayer.Path, *scion.Raw) && asptr(curSlow.scionLayer.Path, *scion.Raw) != nil ==> scion.baseOK(asptr(curSlow.scionLayer.Path, *scion.Raw).PathMeta.SegLen[0], asptr(curSlow.scionLayer.Path, *scion.Raw).PathMeta.SegLen[1], asptr(curSlow.scionLayer.Path, *scion.Raw).PathMeta.SegLen[2], asptr(curSlow.scionLayer.Path, *scion.Raw).NumINF, asptr(curSlow.scionLayer.Path, *scion.Raw).NumHops)
+//@   ensures result1 == nil && typeis(curSlow.scionLayer.Path, *epic.Path) && asptr(curSlow.scionLayer.Path, *epic.Path).ScionPath != nil ==> scion.baseOK(asptr(curSlow.scionLayer.Path, *epic.Path).ScionPath.PathMeta.SegLen[0], asptr(curSlow.scionLayer.Path, *epic.Path).ScionPath.PathMeta.SegLen[1], asptr(curSlow.scionLayer.Path, *epic.Path).ScionPath.PathMeta.SegLen[2], asptr(curSlow.scionLayer.Path, *epic.Path).ScionPath.NumINF, asptr(curSlow.scionLayer.Path, *epic.Path).ScionPath.NumHops)
 //@ func (*slowPathPacketProcessor).handleSCMPTraceRouteRequest
 //@   props C09
-//@   requires p != nil && p.lastLayer != nil && p.pkt != nil && p.d != nil
+//@   requires p != nil && p.lastLayer != nil && p.pkt != nil && p.pkt.Link != nil && p.d != nil && p.scionLayer.Path != nil && scmpPathOK(p)
 //@ func (*slowPathPacketProcessor).processPacket
 //@   props C09
 //@   callmod decodeLayers: p.scionLayer, p.hbhLayer, p.e2eLayer
